@@ -804,3 +804,198 @@ Proof.
   - rewrite HL. lia.
   - rewrite E0. replace (p + S p)%nat with (length U - 1)%nat by lia. rewrite E1. exact Hab.
 Qed.
+
+Lemma aff_inj (f : R -> R) sl : 0 < sl -> (forall x y, f x - f y = sl * (x - y)) -> forall x y, f x = f y -> x = y.
+Proof.
+  intros Hsl Haff x y E. pose proof (Haff x y) as H. rewrite E in H.
+  assert (H0 : sl * (x - y) = 0) by lra. apply Rmult_integral in H0. destruct H0; lra.
+Qed.
+
+(* what every patch of the 'uv' decomposition looks like: Bezier in both directions *)
+Definition uv_patch_shape (dim : nat) (g r : @surf R) : Prop :=
+  s_pu r = s_pu g /\ s_pv r = s_pv g /\ bezier_kv (s_pu g) (s_Uu r) /\ bezier_kv (s_pv g) (s_Uv r) /\
+  s_su r = S (s_pu g) /\ s_sv r = S (s_pv g) /\ net_ok dim r.
+
+(* the patches are ordered u outer, v inner (as the code concatenates them): patch number j + nv * i covers the rectangle
+   [bu_i, bu_{i+1}) x [bv_j, bv_{j+1}) and coincides there with the original under the affine maps of its own domain *)
+Definition uv_patches_coincide (dim : nat) (g : @surf R) (l : list (@surf R)) : Prop :=
+  let bu := dbreaks (s_pu g) (s_Uu g) (s_su g) in
+  let bv := dbreaks (s_pv g) (s_Uv g) (s_sv g) in
+  let nu := S (length (dedup (interior_knots (s_pu g) (s_Uu g)))) in
+  let nv := S (length (dedup (interior_knots (s_pv g) (s_Uv g)))) in
+  forall i j, (i < nu)%nat -> (j < nv)%nat ->
+    (nth i bu 0 < nth (S i) bu 0 /\ nth j bv 0 < nth (S j) bv 0) /\
+    forall cc x y, (cc < dim)%nat -> nth i bu 0 <= x < nth (S i) bu 0 -> nth j bv 0 <= y < nth (S j) bv 0 ->
+      surf_pt (nth (j + nv * i) l g) cc
+        (apar (s_Uu (nth (j + nv * i) l g)) (nth i bu 0) (nth (S i) bu 0) x)
+        (apar (s_Uv (nth (j + nv * i) l g)) (nth j bv 0) (nth (S j) bv 0) y) = surf_pt g cc x y.
+
+(* [G] decompose_surface, direction 'uv' *)
+Theorem decompose_surface_uv tol (g : @surf R) dim :
+  dir_dec_hyps tol (s_pu g) (s_Uu g) (s_su g) -> dir_dec_hyps tol (s_pv g) (s_Uv g) (s_sv g) ->
+  (forall i, (i < s_sv g * s_su g)%nat -> length (getp (s_P g) i) = dim) ->
+  exists l, decompose_surface Rops tol 2 g = Ok l /\
+    length l = (S (length (dedup (interior_knots (s_pu g) (s_Uu g)))) *
+                S (length (dedup (interior_knots (s_pv g) (s_Uv g)))))%nat /\
+    Forall (uv_patch_shape dim g) l /\ uv_patches_coincide dim g l.
+Proof.
+  intros Hu Hv Hdim.
+  pose proof (dir_dec_valid tol _ _ _ Hu) as Hvu. pose proof (dir_dec_valid tol _ _ _ Hv) as Hvv.
+  destruct (dec_valid_keep tol _ _ _ Hvu) as [Hku Hsu]. destruct (dec_valid_keep tol _ _ _ Hvv) as [Hkv Hsv].
+  assert (Hinv : dinv tol 0 (net_ok dim) g) by (split; [exact Hvu|split; [exact Hkv|split; assumption]]).
+  destruct (decompose_dir_spec tol 0 dim g (step_ok_u tol dim) Hinv) as (gs & Hgs & Hlen & HF & Hco).
+  cbn [dp dU dn op oU on Nat.eqb] in Hlen.
+  set (nv := S (length (dedup (interior_knots (s_pv g) (s_Uv g))))).
+  (* every u-strip satisfies the invariant of the v direction; its v-knot vector is an affine image of the original *)
+  assert (HQ : forall q, strip_shape 0 (net_ok dim) g q ->
+     dinv tol 1 (net_ok dim) q /\ s_pv q = s_pv g /\
+     exists (f : R -> R) (sl : R), 0 < sl /\ (forall x y, f x - f y = sl * (x - y)) /\ s_Uv q = map f (s_Uv g)).
+  { intros q (B1 & B2 & B3 & B4 & B5 & B6 & B7 & B8 & B9). cbn [dp dU dn op oU on Nat.eqb] in *.
+    destruct (kept_affine tol _ _ _ (s_Uv q) Hvv (match_nil_cases _ _ _ _ B7)) as [Hvq Hf].
+    split; [|split; [exact B2|exact Hf]]. split; [|split; [|exact B8]].
+    - cbn [dp dU dn Nat.eqb]. rewrite B2, B6. exact Hvq.
+    - cbn [op oU on Nat.eqb]. rewrite B1, B5. apply (bezier_keep _ _ _ _ B4 B3). }
+  set (Pv := fun (q : @surf R) (r : list (@surf R)) =>
+     length r = S (length (dedup (interior_knots (dp 1 q) (dU 1 q)))) /\
+     Forall (strip_shape 1 (net_ok dim) q) r /\ strips_coincide 1 dim q r).
+  assert (HF' : Forall (fun q => exists r, decompose_dir Rops tol 1 q = Ok r /\ Pv q r) gs).
+  { eapply Forall_impl; [|exact HF]. intros q Hq. destruct (HQ q Hq) as [Hinvq _].
+    exact (decompose_dir_spec tol 1 dim q (step_ok_v tol dim) Hinvq). }
+  destruct (res_concat_map_ok _ Pv gs HF') as (ls & Hls & HF2).
+  exists (concat ls). split; [unfold decompose_surface; rewrite Hgs; cbn [res_bind]; exact Hls|].
+  pose proof HF as HFa. rewrite Forall_forall in HFa.
+  assert (Hw : Forall (fun r => length r = nv) ls).
+  { apply Forall_forall. intros r Hr. destruct (Forall2_in_r _ _ _ HF2 r Hr) as (q & Hq & (Hl & _)).
+    destruct (HQ q (HFa q Hq)) as (_ & Epv & f & sl & Hsl & Haff & Ef).
+    rewrite Hl. cbn [dp dU Nat.eqb]. rewrite Epv, Ef, interior_map, (dedup_map_inj f (aff_inj f sl Hsl Haff)), map_length.
+    reflexivity. }
+  destruct (Forall2_nth_both Pv g [] gs ls HF2) as [HLs HN].
+  split; [rewrite (length_concat_const nv ls Hw), <- HLs, Hlen; apply Nat.mul_comm|]. split.
+  - (* shapes *)
+    apply Forall_forall. intros r Hr. apply in_concat in Hr. destruct Hr as (lr & Hlr & Hr).
+    destruct (Forall2_in_r _ _ _ HF2 lr Hlr) as (q & Hq & (_ & HFr & _)).
+    pose proof (HFa q Hq) as Hsq. rewrite Forall_forall in HFr. pose proof (HFr r Hr) as Hsr.
+    destruct (strip_bezier _ _ _ _ Hsr) as [Hbv _].
+    destruct Hsq as (B1 & B2 & B3 & B4 & B5 & B6 & B7 & B8 & B9).
+    destruct Hsr as (C1 & C2 & C3 & C4 & C5 & C6 & C7 & C8 & C9).
+    cbn [dp dU dn op oU on Nat.eqb] in *. unfold uv_patch_shape.
+    split; [congruence|]. split; [congruence|]. split.
+    + destruct (match_nil_cases _ _ _ _ C7) as [E|E]; rewrite E.
+      * eexists. eexists. split; [exact B4|exact B3].
+      * exists 0, 1. split; [lra|]. apply (norm_bezier _ _ _ _ B4 B3).
+    + split; [rewrite <- B2; exact Hbv|]. split; [congruence|]. split; [congruence|exact C8].
+  - (* coincidence on the rectangles *)
+    unfold uv_patches_coincide. cbv zeta. fold nv. intros i j Hi Hj.
+    assert (Hig : (i < length gs)%nat) by lia.
+    destruct (HN i Hig) as (Hl_i & HF_i & Hco_i).
+    set (q := nth i gs g) in *. set (lr := nth i ls []) in *.
+    assert (Hsq : strip_shape 0 (net_ok dim) g q) by (apply HFa; apply nth_In; exact Hig).
+    destruct (HQ q Hsq) as (Hinvq & _ & f & sl & Hsl & Haff & Ef).
+    assert (Hlr : length lr = nv).
+    { rewrite Forall_forall in Hw. apply Hw. apply nth_In. lia. }
+    rewrite (nth_concat_const nv g ls i j Hw) by lia. fold lr.
+    rewrite (nth_indep lr g q) by lia.
+    destruct (Hco i Hig) as [Hbi Hpt_u]. cbn [dp dU dn op oU on dpt Nat.eqb] in Hbi, Hpt_u. fold q in Hpt_u.
+    destruct (Hco_i j ltac:(lia)) as [Hbj Hpt_v]. cbn [dp dU dn op oU on dpt Nat.eqb] in Hbj, Hpt_v.
+    set (r := nth j lr q) in *.
+    destruct Hsq as (B1 & B2 & B3 & B4 & B5 & B6 & B7 & B8 & B9). cbn [dp dU dn op oU on Nat.eqb] in *.
+    pose proof Hkv as (_ & KLv & Krv).
+    rewrite B2, B6, Ef in Hbj, Hpt_v.
+    rewrite (dbreaks_map f _ _ _ (aff_inj f sl Hsl Haff) KLv) in Hbj, Hpt_v.
+    set (bu := dbreaks (s_pu g) (s_Uu g) (s_su g)) in *. set (bv := dbreaks (s_pv g) (s_Uv g) (s_sv g)) in *.
+    assert (Hbvl : length bv = S nv) by (unfold bv; rewrite dbreaks_len; reflexivity).
+    rewrite !nth_map_lt in Hbj, Hpt_v by lia.
+    set (ulo := nth i bu 0) in *. set (uhi := nth (S i) bu 0) in *.
+    set (vlo := nth j bv 0) in *. set (vhi := nth (S j) bv 0) in *.
+    assert (Hv01 : vlo < vhi).
+    { destruct Hbj as [_ Hb]. pose proof (Haff vhi vlo) as H1.
+      destruct (Rlt_le_dec vlo vhi) as [H|H]; [exact H|exfalso].
+      assert (0 <= sl * (vlo - vhi)) by (apply Rmult_le_pos; lra). lra. }
+    split; [split; [lra|exact Hv01]|].
+    intros cc x y Hcc Hx Hy.
+    set (V0 := knR (s_Uv g) 0) in *. set (Vl := knR (s_Uv g) (length (s_Uv g) - 1)) in *.
+    assert (HV : V0 < Vl).
+    { unfold V0, Vl. rewrite KLv. replace (S (s_pv g + s_sv g) - 1)%nat with (s_pv g + s_sv g)%nat by lia. exact Krv. }
+    set (A := knR (s_Uu q) 0) in *. set (B := knR (s_Uu q) (length (s_Uu q) - 1)) in *.
+    assert (F1 : apar (s_Uv q) V0 Vl y = f y).
+    { unfold apar. rewrite Ef, map_length, !knR_map by lia. fold V0 Vl.
+      pose proof (Haff Vl V0) as H1. pose proof (Haff y V0) as H2.
+      replace (f Vl - f V0) with (sl * (Vl - V0)) by lra.
+      replace (f y) with (f V0 + sl * (y - V0)) by lra. field. lra. }
+    assert (F2 : f vlo <= f y < f vhi).
+    { pose proof (Haff y vlo) as H1. pose proof (Haff vhi y) as H2.
+      assert (0 <= sl * (y - vlo)) by (apply Rmult_le_pos; lra).
+      assert (0 < sl * (vhi - y)) by (apply Rmult_lt_0_compat; lra). lra. }
+    rewrite <- (Hpt_u cc x y Hcc Hx). rewrite F1.
+    rewrite <- (Hpt_v cc (f y) (apar (s_Uu q) ulo uhi x) Hcc F2).
+    f_equal.
+    + unfold apar. fold A B. field. repeat split; lra.
+    + unfold apar. pose proof (Haff y vlo) as H1. pose proof (Haff vhi vlo) as H2.
+      replace (f y - f vlo) with (sl * (y - vlo)) by lra. replace (f vhi - f vlo) with (sl * (vhi - vlo)) by lra.
+      field. repeat split; lra.
+Qed.
+Print Assumptions decompose_surface_uv.
+
+(* ---------------------------------------------------------------- counts in the form of decompose_count (lists of the
+   distinct interior knots given by the caller), and the trivial case *)
+Corollary decompose_surface_count tol (g : @surf R) dim dsu dsv :
+  dir_dec_hyps tol (s_pu g) (s_Uu g) (s_su g) -> dir_dec_hyps tol (s_pv g) (s_Uv g) (s_sv g) ->
+  (forall i, (i < s_sv g * s_su g)%nat -> length (getp (s_P g) i) = dim) ->
+  NoDup dsu -> (forall x, In x dsu <-> In x (interior_knots (s_pu g) (s_Uu g))) ->
+  NoDup dsv -> (forall x, In x dsv <-> In x (interior_knots (s_pv g) (s_Uv g))) ->
+  exists lu lv luv,
+    decompose_surface Rops tol 0 g = Ok lu /\ length lu = S (length dsu) /\
+    decompose_surface Rops tol 1 g = Ok lv /\ length lv = S (length dsv) /\
+    decompose_surface Rops tol 2 g = Ok luv /\ length luv = (S (length dsu) * S (length dsv))%nat.
+Proof.
+  intros Hu Hv Hdim Nu Iu Nv Iv.
+  pose proof (dir_dec_valid tol _ _ _ Hu) as Hvu. pose proof (dir_dec_valid tol _ _ _ Hv) as Hvv.
+  destruct (dec_valid_keep tol _ _ _ Hvu) as [Hku Hsu]. destruct (dec_valid_keep tol _ _ _ Hvv) as [Hkv Hsv].
+  destruct (decompose_surface_u tol g dim Hu Hkv Hdim) as (lu & E1 & L1 & _).
+  destruct (decompose_surface_v tol g dim Hv Hku Hsu Hdim) as (lv & E2 & L2 & _).
+  destruct (decompose_surface_uv tol g dim Hu Hv Hdim) as (luv & E3 & L3 & _).
+  pose proof Hu as (Su & Lu & _). pose proof Hv as (Sv & Lv & _).
+  rewrite (dedup_count _ _ _ dsu Su Lu Nu Iu) in L1, L3. rewrite (dedup_count _ _ _ dsv Sv Lv Nv Iv) in L2, L3.
+  exists lu, lv, luv. auto 10.
+Qed.
+Print Assumptions decompose_surface_count.
+
+(* no interior knot in the direction: the loop returns the surface itself (no hypotheses) *)
+Lemma decompose_dir_no_interior tol idx (g : @surf R) :
+  interior_knots (dp idx g) (dU idx g) = [] -> decompose_dir Rops tol idx g = Ok [g].
+Proof.
+  intros E. unfold decompose_dir. cbn [decompose_surf_loop]. cbv zeta.
+  change (if Nat.eqb idx 0 then s_pu g else s_pv g) with (dp idx g).
+  change (if Nat.eqb idx 0 then s_Uu g else s_Uv g) with (dU idx g). rewrite E. reflexivity.
+Qed.
+
+(* ---------------------------------------------------------------- the hypotheses are satisfiable (exact comparison) *)
+Lemma knots_separated_0 (U : list R) : knots_separated 0 U.
+Proof.
+  split; [lra|]. intros i j _ _ H. rewrite Rmult_0_l in H. apply Rminus_diag_uniq.
+  destruct (Req_dec (knR U i - knR U j) 0) as [E|E]; [exact E|]. apply Rabs_pos_lt in E. lra.
+Qed.
+
+(* degree 1 x 1, u-knots 0 0 1 2 2 (one interior knot, not normalised), v-knots 0 0 3 3, 3 x 2 points of dimension 1 *)
+Definition exS : @surf R := mkS 1 1 [0;0;1;2;2] [0;0;3;3] 3 2 [[0];[1];[2];[4];[3];[5]].
+
+Example decompose_surface_hyps_satisfiable :
+  dir_dec_hyps 0 (s_pu exS) (s_Uu exS) (s_su exS) /\ dir_dec_hyps 0 (s_pv exS) (s_Uv exS) (s_sv exS) /\
+  (forall i, (i < s_sv exS * s_su exS)%nat -> length (getp (s_P exS) i) = 1%nat) /\
+  interior_knots (s_pu exS) (s_Uu exS) = [1].
+Proof.
+  cbn [s_pu s_pv s_Uu s_Uv s_su s_sv s_P exS].
+  split; [|split; [|split]].
+  - split; [|split; [reflexivity|split; [|split; [lia|split; [|apply knots_separated_0]]]]].
+    + intros i j Hij. cbn [length] in Hij. unfold kn.
+      destruct i as [|[|[|[|[|i]]]]]; destruct j as [|[|[|[|[|j]]]]]; try lia; cbn [nth Rops o0]; lra.
+    + exists 0, 2. split; [lra|reflexivity].
+    + intros i Hi. unfold kn. destruct i as [|[|[|i]]]; try lia; cbn [nth Nat.add Rops o0]; lra.
+  - split; [|split; [reflexivity|split; [|split; [lia|split; [|apply knots_separated_0]]]]].
+    + intros i j Hij. cbn [length] in Hij. unfold kn.
+      destruct i as [|[|[|[|i]]]]; destruct j as [|[|[|[|j]]]]; try lia; cbn [nth Rops o0]; lra.
+    + exists 0, 3. split; [lra|reflexivity].
+    + intros i Hi. unfold kn. destruct i as [|[|i]]; try lia; cbn [nth Nat.add Rops o0]; lra.
+  - intros i Hi. destruct i as [|[|[|[|[|[|i]]]]]]; try lia; reflexivity.
+  - reflexivity.
+Qed.
